@@ -35,7 +35,7 @@ SCENARIO_TIMEOUT = 300
 PROBES = ["earlier_killed", "earlier_io_error", "earlier_clean", "debris_spill_files", "debris_level_files",
           "debris_partial_result", "debris_header_only", "debris_unreadable_parquet", "same_data", "other_data",
           "other_format", "multi_history", "cli", "cli_tsv_leftover", "observed_workers>1", "torn_write",
-          "debris_zero_length", "prefix_or_root_differs"]
+          "debris_zero_length", "prefix_or_root_differs", "observed_rows_multiple_of_chunk"]
 RULE = (
     "Histories in one destination directory. Family 1 enumerates, for each grid cell (earlier chunk size x observed "
     "chunk size x same/other data x same/other format), EVERY mutation call index of the earlier assign_confidence run "
@@ -107,6 +107,16 @@ def _run_desc(rng, tab, *, chunk, fmt, workers=1, prefix=None, file_root="", dec
     }
 
 
+def _n_rows(tab):
+    return len(W.build_conf_table(tab)["rows"])
+
+
+def _exact_chunk(rng, n):
+    """A chunk size that divides the row count exactly (n = k*c): the boundary case of every 'number of chunks' formula."""
+    divs = [n // k for k in (1, 1, 2, 3, 4, 5) if n % k == 0]
+    return rng.choice(divs)
+
+
 def _in_name(run):
     return "in_" + digest([run["tables"], run["format"]])[:10]
 
@@ -135,6 +145,8 @@ def _family1_cells(rng, n_cells):
         n_guess = int(tab_e["n_spectra"] * 1.5)
         ch_e = rng.choice([n_guess // 4, n_guess // 3, n_guess // 2, n_guess // 6])
         ch_o = rng.choice([None, n_guess // 2, n_guess // 3, ch_e, 10**9])
+        if rng.random() < 0.5:
+            ch_o = _exact_chunk(rng, _n_rows(tab_o))
         earlier = _run_desc(rng, tab_e, chunk=ch_e, fmt=fmt_e, workers=rng.choice([1, 1, 2, 3]), tag="e0")
         observed = _run_desc(rng, tab_o, chunk=ch_o, fmt=fmt_o, workers=rng.choice([1, 2, 4]), tag="obs")
         if same and rng.random() < 0.5:
@@ -190,7 +202,10 @@ def _family2(seed):
     tab_o = _table_params(rng, level_cols=level_cols)
     fmt_o = rng.choice(["pin", "parquet"])
     n_guess = int(tab_o["n_spectra"] * 1.5)
-    observed = _run_desc(rng, tab_o, chunk=rng.choice([None, n_guess // 2, n_guess // 3, 7]), fmt=fmt_o,
+    ch_o = rng.choice([None, n_guess // 2, n_guess // 3, 7])
+    if rng.random() < 0.4:
+        ch_o = _exact_chunk(rng, _n_rows(tab_o))
+    observed = _run_desc(rng, tab_o, chunk=ch_o, fmt=fmt_o,
                          workers=rng.choice([1, 2, 4]), prefix=rng.choice([None, None, "p0"]),
                          file_root=rng.choice(["", "", "rootA."]), decoys=rng.random() < 0.8, tag="obs")
     earlier = []
@@ -300,6 +315,8 @@ def run_scenario(scn, workdir):
     probes["same_data" if same_data else "other_data"] = 1
     probes["other_format"] = int(any(e["format"] != scn["observed"]["format"] for e in scn["earlier"]))
     probes["multi_history"] = int(len(scn["earlier"]) > 1)
+    _c = (scn["observed"].get("knobs") or {}).get("CONFIDENCE_CHUNK_SIZE")
+    probes["observed_rows_multiple_of_chunk"] = int(bool(_c) and _c < 10**8 and _n_rows(scn["observed"]["tables"][0]) % _c == 0)
     probes["observed_workers>1"] = int(obs.get("max_workers", 1) > 1)
     probes["prefix_or_root_differs"] = int(any(
         (e["conf"].get("prefixes"), e["conf"].get("file_root")) != (obs["conf"].get("prefixes"), obs["conf"].get("file_root"))
